@@ -644,6 +644,15 @@ def gen_case(seed, profile='edit'):
             qcount[0] += 1
             pool.append({'lhs': ['d', y, s_, 1], 'rhs': q(qcount[0], '1')})
             stray = (y, len(pool) - 1)
+    clamp = None
+    if profile == 'value' and rng.random() < 0.4:
+        # a state that is clamped (its ODE replaced by x = number) and released again: it is the same state afterwards
+        sts_ = [i for i in sorted(kinds) if kinds[i] == 'ode']
+        if sts_:
+            x_ = rng.choice(sts_)
+            qcount[0] += 1
+            pool.append({'lhs': ['v', x_], 'rhs': q(qcount[0], rng.choice(['2', '-1', '0.5']))})
+            clamp = (x_, len(pool) - 1)
     npool = len(pool)
     ops = []
     nvars = nbase
@@ -658,6 +667,11 @@ def gen_case(seed, profile='edit'):
         stray_ops = [['rmeq', core_eq[y]], ['addeq', se, True], ['q_free'], ['rmeq', se], ['q_free'], ['addeq', core_eq[y], True],
                      ['q_free'], ['q_states']]
         stray_ops += [['q_value', y], ['q_value', rng.randrange(nbase)]] if profile == 'value' else [['q_def', y], ['q_derivs']]
+    clamp_ops = []
+    if clamp is not None:
+        x_, ce = clamp
+        clamp_ops = [['q_value', x_], ['rmeq', core_eq[x_]], ['addeq', ce, True], ['q_value', x_], ['q_states'], ['rmeq', ce],
+                     ['addeq', core_eq[x_], True], ['q_states'], ['q_value', x_], ['q_value', rng.randrange(nbase)]]
     nops = rng.randint(8, 25)
     queries = ['q_eqs', 'q_states', 'q_graph', 'q_ngraph', 'q_vars', 'q_free', 'q_derivs', 'q_derived']
     weights = PROFILES[profile]
@@ -713,6 +727,9 @@ def gen_case(seed, profile='edit'):
     if stray_ops:
         at = rng.randrange(len(ops) + 1) if rng.random() < 0.5 else ncore
         ops[at:at] = stray_ops
+    if clamp_ops:
+        at = rng.randrange(ncore, len(ops) + 1)
+        ops[at:at] = clamp_ops
     if profile == 'annot' and rng.random() < 0.35:
         # an id that moves away from a variable whose annotations were looked at, and a NEW id for that variable: the
         # annotations of the old id stay with its new carrier, also when the first variable is removed
